@@ -99,6 +99,14 @@ def handle (op : String) (args impl : List String) : Option String :=
       else if eq != n then some s!"fail all-ops-answered model={n} 0"
       else some s!"ok {tagOfMode mode}"
     | _, _, _, _, _ => none
+  | "pur.rebuild", [_i, _n], eq :: diff :: _first =>
+    -- the country, zone, calendars and one evaluation derived from the same coordinates, rebuilt from
+    -- scratch: a function of the coordinates only
+    match eq.toNat?, diff.toNat? with
+    | some eq, some diff =>
+      if diff != 0 then some s!"fail same-answer model=0-different rebuilt-from-coordinates eq={eq} diff={diff}"
+      else some "ok rebuild"
+    | _, _ => none
   | "pur.selftest", [_kind], [eq, diff] =>
     -- the detector applied to a deliberately impure evaluator must see differences
     match eq.toNat?, diff.toNat? with
